@@ -1,6 +1,6 @@
 //go:build verif
 
-package inprocgrpc
+package httpgrpc
 
 import (
 	"context"
@@ -72,11 +72,11 @@ func verifClientOp(op int, cs grpc.ClientStream, cancel context.CancelFunc, ctx 
 	}
 }
 
-// Verif_C05_InProc: every client script and handler script of bounded length over
+// Verif_C05_HTTP: the same over the HTTP transport (half-duplex): every client script and handler script of bounded length over
 // a bidi in-process stream, optionally with the client's sends in their own
 // goroutine. At the end the handler returns and the client cancels, after which
 // every further operation must complete; nothing may deadlock, panic or leak.
-func Verif_C05_InProc() {
+func Verif_C05_HTTP() {
 	nOps := zv.Param("scriptlen", 2)
 	var cops, hops []int
 	for i := 0; i < nOps; i++ {
@@ -88,7 +88,15 @@ func Verif_C05_InProc() {
 	hooks := &verifHooks{}
 	var handlerDone int32
 	hooks.Stream = func(tag string, ss grpc.ServerStream) error {
+		drained := false
 		for _, op := range hops {
+			if (op == verifHSend || op == verifHSendHeader) && !drained {
+				// half-duplex over HTTP/1.1: a handler answers only after it has
+				// consumed the client's messages
+				for ss.RecvMsg(&verifMsg{}) == nil {
+				}
+				drained = true
+			}
 			switch op {
 			case verifHRecv:
 				ss.RecvMsg(&verifMsg{})
@@ -108,7 +116,7 @@ func Verif_C05_InProc() {
 		}
 		return nil
 	}
-	ch := verifChannel(hooks)
+	ch, _, _ := verifHTTP(hooks)
 	ctx, cancel := context.WithCancel(context.Background())
 	defer cancel()
 	cs, err := ch.NewStream(ctx, zzfix.StreamDescOf("S"), "/a/S")
